@@ -1,7 +1,10 @@
 (* C06 proofs, round 4: assembly of the models half of the checker ([gltf_check_models]) and of the whole
    boolean statement [gltf_validb sc (document of run sc) = true] from the clause-by-clause theorems. *)
 From PF Require Import Base.Bytes Base.BytesProofs Formats.Gltf Formats.GltfProofs Formats.GltfDedupProofs
-  Formats.GltfNodeProofs Formats.GltfFinalProofs Formats.GltfGeomProofs Formats.GltfR4DedupProofs Formats.GltfR4NodeProofs.
+  Formats.GltfNodeProofs Formats.GltfFinalProofs Formats.GltfGeomProofs Formats.GltfR4DedupProofs Formats.GltfR4NodeProofs
+  Formats.GltfR4TexProofs Formats.GltfR4ExtraProofs Formats.GltfGlbProofs.
+From Coq Require Import ZifyN ZifyNat ZifyBool.
+Ltac Zify.zify_post_hook ::= Z.div_mod_to_equations.
 From Coq Require String.
 Import String.StringSyntax.
 Open Scope list_scope.
@@ -48,4 +51,68 @@ Proof.
   pose proof (dedup_pairs_run sc Hp Hmp) as C6.
   pose proof (node_checks_run sc Hok Hp Hnames Hmat) as C5. cbv zeta in C5.
   rewrite C1, C2, C3, C4, C5, C6, Hfun, Hslots, Hextra. reflexivity.
+Qed.
+
+(* ------------------------------------------------------------------ the whole checker *)
+(* What Go guarantees about a scene, beyond [scene_ok] (structure of a modeling.Mesh):
+   pointer identity is consistent with values for meshes, materials and textures; material extension values
+   in one equality class of Go's == are the same value; names that become JSON object keys are distinct within
+   their object (glTF attribute names of a mesh, texture slot names of a material, extension ids of a material /
+   of a texture). *)
+Record scene_wf (sc : scene) : Prop := {
+  wf_ok : scene_ok sc;
+  wf_ptr : scene_ptr_ok sc;
+  wf_names : scene_names_ok sc;
+  wf_mat_ptr : scene_mat_ptr_ok sc;
+  wf_tex_ptr : scene_tex_ptr_ok sc;
+  wf_ext_cls : scene_ext_cls_ok sc;
+  wf_slots : scene_mat_ok sc;
+  wf_ext_ids : scene_ext_ids_ok sc }.
+
+Theorem check_models_run sc : scene_wf sc -> gltf_check_models sc (obs_text sc) = [].
+Proof.
+  intros [Hok Hp Hn Hmp Htp Hec Hsl Hid].
+  apply check_models_assemble; try assumption.
+  - apply node_mat_check_run; assumption.
+  - apply tex_refs_functional_run; assumption.
+  - apply mat_slots_valid_run.
+  - apply nothing_extra_run, Hn.
+Qed.
+
+(* THE PROPERTY SENTENCE in the checker's own boolean form: the document of the model (text container:
+   summary, payload, declared length) passes every clause of [gltf_check] against the scene it was written from *)
+Theorem gltf_valid_model_run sc : scene_wf sc -> gltf_validb sc (obs_text sc) = true.
+Proof.
+  intros H. unfold gltf_validb, gltf_check.
+  rewrite (check_struct_run sc (wf_ok sc H) (wf_ptr sc H)), (check_models_run sc H). reflexivity.
+Qed.
+
+(* the GLB container clauses ([glb_check]: header, total length, chunk lengths, trailing bytes, chunk table
+   vs buffers, padding) on what the model predicts the independent reader reports ([glb_info_of]), for every
+   JSON length and every buffer length *)
+Theorem glb_check_model jl n : glb_check (glb_info_of jl n) (if 0 <? n then [n] else []) = [].
+Proof.
+  unfold glb_check, glb_info_of. cbn [g_magic g_version g_total g_actual g_chunks g_json_len g_pad_ok].
+  pose proof (pad4_aligned jl) as A1. pose proof (pad4_aligned n) as A2.
+  pose proof (pad4_lt jl) as L1. pose proof (pad4_lt n) as L2.
+  rewrite !N.eqb_refl. cbn [andb key_if app].
+  destruct (n + pad4 n =? 0) eqn:Eb.
+  - assert (n = 0) by lia. unfold glb_total. rewrite Eb. subst n. replace (0 <? 0) with false by reflexivity.
+    cbn [forallb fold_right app].
+    repeat (apply app_nil2; [apply key_if_true|]); try apply key_if_true; try reflexivity. all: try lia.
+  - assert (0 < n) by lia. replace (0 <? n) with true by lia.
+    cbn [forallb fold_right app]. unfold glb_total. rewrite Eb.
+    repeat (apply app_nil2; [apply key_if_true|]); try apply key_if_true; try reflexivity. all: try lia.
+Qed.
+
+(* non-vacuity: the witness scene of the texture-extension finding (two models, two materials that differ in a
+   texture's extension list, one shared mesh) satisfies every hypothesis *)
+Example tex_ext_scene_wf : scene_wf tex_ext_scene.
+Proof.
+  destruct tex_ext_scene_hyps as (H1 & H2 & H3 & H4 & H5).
+  destruct material_content_refuted_witness as (_ & _ & _ & Hok & _).
+  constructor; try assumption.
+  - intros mo Hin. cbn [sc_models tex_ext_scene In] in Hin.
+    destruct Hin as [<-|[<-|[]]]; unfold names_ok; cbn; repeat constructor; cbn; intuition discriminate.
+  - apply tex_ext_scene_mat_ptr_ok.
 Qed.
